@@ -342,3 +342,13 @@ def concrete_number(v):
     if isinstance(v, Rat):
         return v.as_fraction()
     return None
+
+
+class PosInf(object):
+    """model of float('inf') / numpy.inf: only ordering against finite numbers is meaningful"""
+
+    def __repr__(self):
+        return 'inf'
+
+
+INF = PosInf()
